@@ -87,6 +87,8 @@ def run_streams(ctx, mask, monitor, signature, streams, known=None):
             rng = ctx.case_rng(name, i)
             if kw.get('saturate'):
                 recipe = S.gen_saturate(rng, kw['saturate'], gen=name)
+            elif kw.get('abandon'):
+                recipe = S.gen_abandon(rng, gen=name)
             else:
                 recipe = S.gen_sim(rng, gen=name, **kw)
             recipe['case_index'] = i
